@@ -45,6 +45,12 @@ CHECKS = {
                      '(order-insensitive ones), neutrality of the fresh state on both sides, that merge leaves the merged-in state intact and that later updates of either side '
                      'do not leak into the other (real numpy buffers are shared/mutated, so aliasing is observable), and that result() is repeatable. FixedSizeSample: operand/size/'
                      'membership/count law with a nondeterministic RNG stub. Bounded (1-2 rows per state).'),
+    'C07': dict(engine='symx', level='other', design_ref='DESIGN.md#c07', note=SX_NOTE, technique=SX_TECH,
+                text='The real metric code is executed on symbolic data and compared, per path, with independently written textbook definitions (z3 terms over raw '
+                     'examples): all 30 derived confusion-matrix rates over UNBOUNDED non-negative counts (definition, documented aliases, range, incl. MCC and prevalence '
+                     'threshold characterised without sqrt), confusion counts + rates from raw labels for binary/multiclass/indicator/multioutput x micro/macro/binary/samples, '
+                     'function API == accumulator API, top-k matrices for contiguous and gapped k-lists, 17 retrieval metrics per row, moments with NaN, min/max, histograms, '
+                     'calibration histogram, Tjur R2, Pearson r, SPD, flip masks, top-k accuracy, cross entropies. Bounded in rows/classes; rounding outside.'),
 }
 NA = {}
 PENDING = 'check not built yet (see DESIGN.md build order)'
